@@ -1060,6 +1060,29 @@ func (fx *FnCtx) convert(st *State, pc *Term, x Value, from, to types.Type) Valu
 		x.T = to
 		return x
 	}
+	// &local -> unsafe.Pointer -> *T2 where T2 has the representation of the local's type (e.g. []byte
+	// viewed as []Doublet): the pointer is kept and re-typed. Element contents seen through the two
+	// views live in different heaps and are therefore unrelated (over-approximation; listed as an
+	// assumption wherever a function using it is claimed).
+	if x.P != nil {
+		if b, ok := to.Underlying().(*types.Basic); ok && b.Kind() == types.UnsafePointer {
+			return Value{T: to, P: x.P}
+		}
+		if b, ok := from.Underlying().(*types.Basic); ok && b.Kind() == types.UnsafePointer {
+			if pt, ok := to.Underlying().(*types.Pointer); ok {
+				la, lb := tc.Layout(x.P.Typ).Leaves, tc.Layout(pt.Elem()).Leaves
+				same := len(la) == len(lb)
+				for i := 0; same && i < len(la); i++ {
+					same = la[i].Kind == lb[i].Kind && la[i].Sort == lb[i].Sort
+				}
+				if same {
+					np := *x.P
+					np.Typ = pt.Elem()
+					return Value{T: to, P: &np}
+				}
+			}
+		}
+	}
 	fx.fail("unsupported conversion %v -> %v", from, to)
 	return Value{}
 }
